@@ -21,8 +21,8 @@ ASSUMPTIONS = ['standard meaning of numerals/operators as in vf/arith.py (nat mi
                'identities with variables are refuted by exact evaluation at random rational points, never proved']
 MACROS = ['nat_eval', 'int_eval', 'int_const_ineq', 'real_eval', 'real_const_eq', 'real_compare', 'real_const_ineq',
           'real_norm', 'real_eq_comparison', 'const_inequality']
-REQUIRED = {'quick': dict({'accepted:' + m: 30 for m in MACROS}, judged_true=2000),
-            'thorough': dict({'accepted:' + m: 500 for m in MACROS}, judged_true=40000)}
+REQUIRED = {'quick': dict({'accepted:' + m: 30 for m in MACROS}, judged_true=2000, alloc_reuse_same_address=2000),
+            'thorough': dict({'accepted:' + m: 500 for m in MACROS}, judged_true=40000, alloc_reuse_same_address=40000)}
 INTENDED = {'nat_eval': S.NAT, 'int_eval': S.INT, 'int_const_ineq': S.INT, 'real_eval': S.REAL, 'real_const_eq': S.REAL,
             'real_compare': S.REAL, 'real_const_ineq': S.REAL, 'real_norm': S.REAL, 'real_eq_comparison': S.REAL,
             'const_inequality': S.REAL}
@@ -499,10 +499,11 @@ def truth_with_vars(rng, prop, npoints=14):
     return (True if seen_true and not unknown else None), None
 
 
-def run_one(ctx, rng, macro, goal):
+def run_one(ctx, rng, macro, goal, g=None):
     from kernel import theory
     from kernel.proof import Proof, ProofItem
-    g = S.to_repo_term(goal)
+    if g is None:
+        g = S.to_repo_term(goal)
     prf = Proof()
     prf.items.append(ProofItem(0, macro, args=g))
     ctx.count('calls:' + macro)
@@ -526,6 +527,51 @@ def run_one(ctx, rng, macro, goal):
         ctx.violation(mech, '%s accepted goal %s and asserted %s, which is false%s' % (
             macro, S.tm_str(goal), S.tm_str(pr), (' at ' + str(pt)) if pt else ''),
             {'macro': macro, 'goal': S.jsonable(goal), 'point': pt})
+
+
+def alloc_reuse_case(ctx, rng, macro):
+    """W-HIST: a goal is decided, every object of it is released, and a DIFFERENT goal of the same shape is built from
+    parts that were allocated before - so that CPython hands the new goal the memory (and the id()) of the old one.
+    A decision remembered under the identity of a goal object must not be served to another goal.  Both goals go
+    through the ordinary judgement; the macros are stateless, so on a correct tree this is just two more cases."""
+    from kernel.term import Comb
+    goal = None
+    for _ in range(6):
+        try:
+            gl = goal_compare(rng, macro) if macro != 'nat_eval' else None
+        except Exception:
+            gl = None
+        if gl is None:
+            continue
+        h, args = S.strip_comb(gl)
+        if h[0] == 'const' and h[1] in RELS + ['equals'] and len(args) == 2 and not S.aeq(args[0], args[1]):
+            goal = gl
+            break
+    if goal is None:
+        ctx.count('alloc_reuse_skipped')
+        return
+    h, (a, b) = S.strip_comb(goal)
+    rel_t, a_t, b_t = S.to_repo_term(h), S.to_repo_term(a), S.to_repo_term(b)
+    goal2 = S.mk_comb(h, b, a)
+    # the inner applications are built beforehand: the root of each goal is then a single allocation
+    order = [(goal, Comb(rel_t, a_t), b_t), (goal2, Comb(rel_t, b_t), a_t)]
+    if rng.random() < 0.5:
+        order.reverse()
+    ctx.count('alloc_reuse_pairs')
+    ids = []
+    for sh, x, y in order:
+        g = Comb(x, y)
+        keep = []
+        while ids and id(g) != ids[0] and len(keep) < 48:
+            keep.append(g)                 # occupied blocks stay occupied: the allocator walks on through its free list
+            g = Comb(x, y)
+        del keep
+        ids.append(id(g))
+        run_one(ctx, rng, macro, sh, g=g)
+        del g
+    if ids[0] == ids[1]:
+        ctx.count('alloc_reuse_same_address')
+    ctx.case(('alloc', macro, goal), nontrivial=True)
 
 
 def setup():
@@ -562,5 +608,7 @@ def run_shard(ctx, spec):
                 ctx.count('gen_skipped')
                 continue
             run_one(ctx, rng, macro, goal)
+            if k % 4 == 0:
+                alloc_reuse_case(ctx, rng, macro)
             ctx.case((macro, goal), nontrivial=S.size(goal) >= 5,
                      sample={'macro': macro, 'goal': S.tm_str(goal)} if k == 0 and spec['i'] == 0 else None)
